@@ -1,4 +1,5 @@
 import TantivyModel.Gen.Lock
+import TantivyModel.Gen.Faults
 /-!
 # Fault model of the writer / commit / merge machinery (C11)
 
@@ -112,6 +113,9 @@ def init : St :=
 
 inductive Call where
   | newWriter | add (d : Nat) | commit | rollback | dropWriter | merge | gc | reload
+  /-- the operator deletes an orphaned `.tantivy-writer.lock` by hand (what the documentation of
+      `INDEX_WRITER_LOCK` tells users to do) -/
+  | removeLock
   deriving DecidableEq, Repr
 
 inductive Res where
@@ -168,6 +172,10 @@ def updaterCommit (f : Plan) (s : St) (w : Writer) : St × Res :=
 
 def mergedRegs (s : St) (w : Writer) : Writer := { w with committed := [⟨s.nextSeg, content w.committed⟩] }
 def mergedPublished (s : St) (w : Writer) : Writer := { (mergedRegs s w) with active := (mergedRegs s w).committed }
+
+/-- a lock file that nobody owns -/
+def stale (s : St) : Bool :=
+  s.lockFile && !(match s.writer with | some w => w.guard | none => false)
 
 /-- the worker failed while indexing `d`: thread result `Err`, pipeline closed by the bomb -/
 def bombed (w : Writer) (d : Nat) : Writer :=
@@ -241,6 +249,7 @@ def call (cap : Nat) (f : Plan) (s : St) : Call → St × Res
       else ({ (gcRun f s w).1 with writer := some (markErr w) }, .err)
   | .reload =>
     if f .reload then (s, .err) else ({ s with searcher := s.metaSegs }, .ok)
+  | .removeLock => (if stale s then { s with lockFile := false } else s, .ok)
 
 def run (cap : Nat) (F : Nat → Plan) (i : Nat) (s : St) : List Call → St × List Res
   | [] => (s, [])
@@ -249,5 +258,8 @@ def run (cap : Nat) (F : Nat → Plan) (i : Nat) (s : St) : List Call → St × 
      (call cap (F i) s c).2 :: (run cap F (i + 1) (call cap (F i) s c).1 cs).2)
 
 def final (cap : Nat) (F : Nat → Plan) (cs : List Call) : St := (run cap F 0 init cs).1
+
+/-- capacity of the document channel in the code -/
+def codeCap : Nat := Gen.PIPELINE_MAX_SIZE_IN_DOCS
 
 end TantivyModel.Faults
